@@ -71,7 +71,7 @@ Definition xop_eqb (a b : xop) : bool :=
   end.
 Definition xpc_eqb (a b : xpc) : bool :=
   match a, b with
-  | XIdle, XIdle | XAnnounced, XAnnounced | XExcl, XExcl | XDial, XDial | XBgDone, XBgDone | XBgNotSpawned, XBgNotSpawned => true
+  | XIdle, XIdle | XSendChecked, XSendChecked | XAnnounced, XAnnounced | XExcl, XExcl | XDial, XDial | XBgDone, XBgDone | XBgNotSpawned, XBgNotSpawned => true
   | XSendHave x, XSendHave y | XSendWrite x, XSendWrite y | XDiscClosedQ x, XDiscClosedQ y | XDiscClose x, XDiscClose y
   | XBgStart x, XBgStart y | XBgListening x, XBgListening y | XBgReport x, XBgReport y => Nat.eqb x y
   | _, _ => false
